@@ -196,7 +196,29 @@ def replay_line(obj, ctx, opts):
     # --- the verdict: continue the real walk to completion, judge it on its own terms
     emitted_steps = w.steps
     guard = 0
-    while not w.fog.is_complete and guard < MAX_STEPS:
+    sweep = len(h) % 3 == 0
+    if sweep:
+        # a sweeping walker: always asks for what lies to the right of the prefix it explored
+        # last, wraps around at the right end (FullDirectionalVisibility) and stops when the fog
+        # says that nothing is left (PerfectVisibility) -- it never looks at is_complete
+        xm = importlib.import_module("trie.exceptions")
+        q = tuple(h[-1]["p"]) if h[-1].get("p") is not None else ()
+        COUNTS["sweeping-walker"] = COUNTS.get("sweeping-walker", 0) + 1
+        while guard < MAX_STEPS:
+            guard += 1
+            try:
+                p = w.fog.nearest_right(q)
+            except xm.PerfectVisibility:
+                break
+            except xm.FullDirectionalVisibility:
+                q = ()
+                continue
+            except Exception as e:  # noqa
+                out.append(("C09", "fog-query-raised-while-fog-incomplete", {"exc": type(e).__name__}))
+                break
+            w.round(tuple(p))
+            q = tuple(p)
+    while not w.fog.is_complete and guard < MAX_STEPS and not sweep:
         guard += 1
         try:
             p = w.fog.nearest_right(()) if guard % 2 else w.fog.nearest_unknown((15,) * 9)
@@ -205,7 +227,8 @@ def replay_line(obj, ctx, opts):
             break
         w.round(tuple(p))
     if not w.fog.is_complete:
-        out.append(("C09", "walk-does-not-terminate", {"rounds": w.steps, "fog": w.fog_list()[:6]}))
+        out.append(("C09", "sweeping-walk-stopped-with-the-fog-incomplete" if sweep else "walk-does-not-terminate",
+                    {"rounds": w.steps, "fog": w.fog_list()[:6]}))
         return out
     invented = [m for m in w.met if m not in w.ever]
     if invented:
